@@ -30,6 +30,7 @@ def value_shapes(maxlen):
     shapes += [('none',), ('empty',), ('scalar',), ('absent',), ('tuple', 2)]
     shapes += [('sparse_str', n) for n in (1, 2, 3)] + [('sparse_int', 2), ('sparse_empty',)]
     shapes += [('str',), ('dense_str', 2), ('sparse_strval', 2)]
+    shapes += [('dense_str_last', 2), ('dense_str_mid', 3), ('tuple_str_last', 3)]      # strings not in first position
     return shapes
 
 
@@ -46,11 +47,14 @@ def render(shape, primes):
     if k == 'str': return 's'
     if k == 'dense_str': return ['u', primes[0]]
     if k == 'sparse_strval': return {'k0': 'v', 'k1': primes[0]}
+    if k == 'dense_str_last': return [primes[0], 'u']
+    if k == 'dense_str_mid': return [primes[0], 'u', primes[1]]
+    if k == 'tuple_str_last': return (primes[0], primes[1], 'u')
     raise ValueError(shape)
 
 
 def is_sparse_shape(shape):
-    return shape[0] in ('sparse_str', 'sparse_int', 'sparse_empty', 'str', 'dense_str', 'sparse_strval')
+    return shape[0] in ('sparse_str', 'sparse_int', 'sparse_empty', 'str', 'dense_str', 'sparse_strval', 'dense_str_last', 'dense_str_mid', 'tuple_str_last')
 
 
 def features(value):
@@ -119,8 +123,45 @@ class C20(Check):
                         if n == 3 and c is not None and pos not in (0, 3): continue
                         for sx in shapes:
                             for sa in shapes:
-                                if n == 3 and (sx[0] in ('tuple', 'sparse_int', 'sparse_empty', 'dense_str') or sa[0] in ('tuple', 'sparse_int', 'sparse_empty', 'dense_str')): continue
+                                heavy = ('tuple', 'sparse_int', 'sparse_empty', 'dense_str', 'dense_str_mid', 'tuple_str_last')
+                                if n == 3 and (sx[0] in heavy or sa[0] in heavy): continue
                                 yield {'terms': full, 'x': list(sx), 'a': list(sa)}
+        yield from self.reuse_cases(tier)
+
+    def reuse_cases(self, tier):
+        """One encoder object used for several consecutive calls with different inputs (learners keep one encoder for
+        all their calls): every call must give what a fresh encoder gives for the same input."""
+        terms = all_terms(3 if tier == 'quick' else 4)
+        canon = sorted({''.join(sorted(t)) for t in terms}, key=lambda t: (len(t), t)) + ['xa', 'xxa']
+        shapes = [('dense', 1), ('dense', 2), ('dense', 3), ('scalar',), ('sparse_str', 2), ('none',), ('dense_str_last', 2)]
+        for n in (1, 2):
+            for tl in itertools.permutations(canon, n):
+                for sx in shapes:
+                    for sa in shapes:
+                        for kind in ('other-values', 'hash-equal-values', 'other-shape'):
+                            yield {'reuse': kind, 'terms': list(tl), 'x': list(sx), 'a': list(sa)}
+
+    def run_reuse(self, case, acc):
+        terms, sx, sa, kind = case['terms'], tuple(case['x']), tuple(case['a']), case['reuse']
+        H1x, H2x, H1a, H2a = [-1, 3, 5, 7], [-2, 3, 5, 7], [-1, 19, 23], [-2, 19, 23]    # hash(-1) == hash(-2) in CPython
+        nxt = {('dense', 1): ('dense', 2), ('dense', 2): ('dense', 3), ('dense', 3): ('scalar',), ('scalar',): ('dense', 2),
+               ('sparse_str', 2): ('sparse_str', 1), ('none',): ('dense', 1), ('dense_str_last', 2): ('dense', 2)}
+        if kind == 'other-values': seq = [(sx, sa, PRIMES_X, PRIMES_A), (sx, sa, PRIMES_X2, PRIMES_A2), (sx, sa, PRIMES_X, PRIMES_A)]
+        elif kind == 'hash-equal-values': seq = [(sx, sa, H1x, H1a), (sx, sa, H2x, H2a), (sx, sa, H1x, H2a), (sx, sa, H1x, H1a)]
+        else: seq = [(sx, sa, PRIMES_X, PRIMES_A), (nxt[sx], sa, PRIMES_X, PRIMES_A), (sx, nxt[sa], PRIMES_X, PRIMES_A), (sx, sa, PRIMES_X, PRIMES_A)]
+        enc = InteractionsEncoder(terms)
+        for i, (s1, s2, px, pa) in enumerate(seq):
+            kw = {'x': render(s1, px), 'a': render(s2, pa)}
+            try: fresh = ('ok', InteractionsEncoder(terms).encode(**{k: (list(v) if isinstance(v, list) else dict(v) if isinstance(v, dict) else v) for k, v in kw.items()}))
+            except Exception as e: fresh = ('exc', type(e).__name__)     # noqa
+            try: got = ('ok', enc.encode(**kw))
+            except Exception as e: got = ('exc', type(e).__name__)       # noqa
+            if i > 0: acc.mark_nontrivial()
+            if got != fresh:
+                acc.violation(f'encode|result depends on earlier calls of the same encoder|{kind}',
+                              f'call {i + 1} with x={kw["x"]!r} a={kw["a"]!r}: re-used encoder gives {str(got)[:120]}, a fresh encoder {str(fresh)[:120]}')
+                return
+        acc.outcome(('reuse', kind))
 
     def encode(self, terms, sx, sa, px, pa):
         kw = {}
@@ -129,6 +170,7 @@ class C20(Check):
         return kw, InteractionsEncoder(terms).encode(**kw)
 
     def run_case(self, case, acc):
+        if 'reuse' in case: return self.run_reuse(case, acc)
         terms, sx, sa = case['terms'], tuple(case['x']), tuple(case['a'])
         str_terms = [t for t in terms if isinstance(t, str)]
         const = sum(t for t in terms if not isinstance(t, str))
